@@ -157,9 +157,11 @@ def run(idx: ProgramIndex, rep: Report, tier: str, selftest: bool = True, only_w
         sup = next((r for (q, w, t), r in SUPPRESS.items() if fname(fn).endswith(q) and w == s.what and t == s.target_text), None)
         origins = sorted({_origin_text(o) for o, k in s.target.prov})
         kinds = sorted({k for _, k in s.target.prov})
-        construct = f"{s.what} on {s.target_text}"
+        # the construct names WHAT is written and WHOSE storage it may be (provenance), not the local spelling of the target:
+        # renaming a local must not turn a recorded finding into a new one
+        construct = f"{s.what} on what may be {' / '.join(origins)}"
         if s.via_call:
-            construct = f"{s.what}: {s.target_text}"
+            construct = f"{s.what}: what may be {' / '.join(origins)}"
         sample = {"function": fname(fn), "write": construct, "provenance": origins, "kinds": kinds, "loc": fn.loc(s.node)}
         if sup:
             rep.ok("C13.W", {**sample, "suppressed": sup})
